@@ -6,7 +6,11 @@
 //
 //	key spec x envelope format x request descriptor x entry point x answer
 //
-// for both plugin paths (SIGNATURE_GENERATOR.ENVELOPE and SIGNATURE_GENERATOR.RAW).
+// for both plugin paths (SIGNATURE_GENERATOR.ENVELOPE and SIGNATURE_GENERATOR.RAW). The
+// request descriptor dimension (reqDescs) holds the everyday descriptors and VALUE
+// descriptors with boundary sizes (2^31, 2^32, 2^53, 2^60, 2^63-1 ...), unusual
+// annotations, digest algorithm and media type; the answers include signed sizes at
+// small and at 2^32 distance of the requested one.
 // The real PluginSigner.Sign / notation.SignBlob(PluginSigner) is run on every element.
 //
 // Oracle (implication only, and only what the statement says): no panic ever; if
@@ -76,6 +80,78 @@ var (
 	reqAnnotations  = [][2]string{{"a", "1"}, {"b", "2"}}
 	ctx             = context.Background()
 )
+
+// ---------------------------------------------------------------- request descriptors
+//
+// reqDesc is one value of the dimension "descriptor the CALLER requests". "plain" and
+// "annotated" are the everyday descriptors (run through all three entry points). The
+// others are VALUE descriptors: one attribute of the request takes a boundary / unusual
+// value (sizes around 2^31, 2^32, 2^53 and 2^63, where 32-bit, float64 and int64
+// representations of a JSON number stop being exact; annotation values and keys that
+// collide with "absent" or with descriptor member names; a digest under another
+// algorithm; an unregistered media type). A comparison of the signed descriptor with
+// the request that is exact on everyday values only is invisible without them. They are
+// run through the entry points where the caller states the whole descriptor (Sign and
+// PluginSigner.SignBlob with a generator); notation.SignBlob measures size and digest itself.
+type reqDesc struct {
+	Name    string
+	Ann     [][2]string
+	HasSize bool
+	Size    int64
+	MT      string           // "" = the entry point's everyday media type
+	SignAlg digest.Algorithm // "" = sha256: the algorithm of the digest in the descriptor handed to Sign
+	Value   bool             // value descriptor (see above)
+	Note    string
+}
+
+var reqDescs = []reqDesc{
+	{Name: "plain"},
+	{Name: "annotated", Ann: reqAnnotations},
+	{Name: "size:0", Ann: reqAnnotations, HasSize: true, Size: 0, Value: true, Note: "zero = the value of an absent member"},
+	{Name: "size:2^31", Ann: reqAnnotations, HasSize: true, Size: 1 << 31, Value: true, Note: "first value above int32"},
+	{Name: "size:2^32+100", Ann: reqAnnotations, HasSize: true, Size: 1<<32 + 100, Value: true, Note: "low 32 bits = the everyday size 100"},
+	{Name: "size:2^53-1", Ann: reqAnnotations, HasSize: true, Size: 1<<53 - 1, Value: true, Note: "largest integer below which float64 is exact on every neighbour"},
+	{Name: "size:2^53", Ann: reqAnnotations, HasSize: true, Size: 1 << 53, Value: true, Note: "2^53+1 is not a float64"},
+	{Name: "size:2^53+4", Ann: reqAnnotations, HasSize: true, Size: 1<<53 + 4, Value: true, Note: "float64 spacing 2: both neighbours round to it"},
+	{Name: "size:2^60", Ann: reqAnnotations, HasSize: true, Size: 1 << 60, Value: true, Note: "float64 spacing 256"},
+	{Name: "size:2^63-1", Ann: reqAnnotations, HasSize: true, Size: 1<<63 - 1, Value: true, Note: "largest int64"},
+	{Name: "annotations:empty-value", Ann: [][2]string{{"a", ""}, {"b", "2"}}, Value: true, Note: "a requested annotation whose value equals the zero value of a missing map entry"},
+	{Name: "annotations:named-like-descriptor-members", Ann: [][2]string{{"digest", "sha256:0000000000000000000000000000000000000000000000000000000000000000"}, {"size", "1"}}, Value: true, Note: "requested annotation keys that are also descriptor member names"},
+	{Name: "digest:sha512", Ann: reqAnnotations, SignAlg: digest.SHA512, Value: true, Note: "Sign is handed a sha512 digest"},
+	{Name: "mediatype:unregistered", Ann: reqAnnotations, MT: "application/vnd.Verif.Thing.v1+JSON; q=1", Value: true, Note: "mixed case, parameter, blank"},
+}
+
+func descOf(name string) *reqDesc {
+	for i := range reqDescs {
+		if reqDescs[i].Name == name {
+			return &reqDescs[i]
+		}
+	}
+	return nil
+}
+
+// entryApplies: value descriptors only where the caller states the whole descriptor.
+func entryApplies(d *reqDesc, entry string) bool { return !d.Value || entry != "SignBlob" }
+
+// requested is the descriptor the harness hands to Sign / answers from the generator of SignBlobDirect.
+func requested(d *reqDesc, entry string, alg digest.Algorithm) ocispec.Descriptor {
+	out := ocispec.Descriptor{Annotations: annMap(d.Ann)}
+	if entry == "Sign" {
+		if alg == "" {
+			alg = digest.SHA256
+		}
+		out.MediaType, out.Size, out.Digest = mtManifest, 100, alg.FromBytes(artifactContent)
+	} else {
+		out.MediaType, out.Size, out.Digest = mtBlob, int64(len(blobContent)), alg.FromBytes(blobContent)
+	}
+	if d.HasSize {
+		out.Size = d.Size
+	}
+	if d.MT != "" {
+		out.MediaType = d.MT
+	}
+	return out
+}
 
 // ---------------------------------------------------------------- key material
 
@@ -460,6 +536,14 @@ func bad(v reqView) string {
 	return d.json()
 }
 
+// farther: x+by, or x-by where x+by would leave int64.
+func farther(x, by int64) int64 {
+	if x > 1<<63-1-by {
+		return x - by
+	}
+	return x + by
+}
+
 func fixed(s string) func(v reqView) []byte { return func(reqView) []byte { return []byte(s) } }
 
 func envelopeAnswers() []answer {
@@ -474,6 +558,10 @@ func envelopeAnswers() []answer {
 		{Name: "digest-uppercase-hex", Kind: kAdv, Payload: mod(func(v reqView, d *dparts) { d.dg = v.upperDigest() })},
 		{Name: "digest-omitted", Kind: kAdv, Payload: mod(func(v reqView, d *dparts) { d.noDG = true })},
 		{Name: "size-plus-one", Kind: kAdv, Payload: mod(func(v reqView, d *dparts) { d.sz = strconv.FormatInt(v.Size+1, 10) })},
+		{Name: "size-minus-one", Kind: kAdv, Light: true, Payload: mod(func(v reqView, d *dparts) { d.sz = strconv.FormatInt(v.Size-1, 10) })},
+		{Name: "size-plus-100", Kind: kAdv, Light: true, Payload: mod(func(v reqView, d *dparts) { d.sz = strconv.FormatInt(farther(v.Size, 100), 10) }), Note: "minus 100 where plus would leave int64"},
+		{Name: "size-plus-2^32", Kind: kAdv, Light: true, Payload: mod(func(v reqView, d *dparts) { d.sz = strconv.FormatInt(farther(v.Size, 1<<32), 10) }), Note: "same low 32 bits (minus 2^32 where plus would leave int64)"},
+		{Name: "size-plus-one-half", Kind: kAdv, Light: true, Payload: mod(func(v reqView, d *dparts) { d.sz += ".5" }), Note: "not an integer"},
 		{Name: "size-omitted", Kind: kAdv, Payload: mod(func(v reqView, d *dparts) { d.noSZ = true })},
 		{Name: "size-negative", Kind: kAdv, Payload: mod(func(v reqView, d *dparts) { d.sz = "-" + d.sz })},
 		{Name: "mediatype-other", Kind: kAdv, Payload: mod(func(v reqView, d *dparts) { d.mt = "application/vnd.oci.image.index.v1+json" })},
@@ -775,6 +863,7 @@ type plug struct {
 	geCalled     bool
 	geReqType    string
 	geEcho       string
+	toolAltered  bool // the envelope notation-core-go's signer built for the "honest-core" answer does not carry the request payload byte for byte
 	harnessPanic string
 }
 
@@ -786,6 +875,7 @@ func (p *plug) begin(a *answer, entry string) {
 	p.dkCalled = false
 	p.gsCalled, p.gsID, p.gsChain = false, "", nil
 	p.geCalled, p.geReqType, p.geEcho = false, "", ""
+	p.toolAltered = false
 }
 
 func (p *plug) guard() func() {
@@ -1026,6 +1116,12 @@ func (p *plug) GenerateEnvelope(_ context.Context, req *fw.GenerateEnvelopeReque
 		if err != nil {
 			panic("honest signer failed: " + err.Error())
 		}
+		// is the answer honest? notation-core-go's JWS signer re-encodes the payload through a generic JSON value
+		// (numbers become float64): above 2^53 it may sign another size than the one it was given. Then this answer
+		// is one more adversarial answer (correctly signed over another size), not a control.
+		if got, err := refsig.Verify(format, env); err != nil || !bytes.Equal(got.Payload, payload) {
+			p.toolAltered, p.delivered = true, true
+		}
 	} else {
 		env = forge.Build(spec)
 	}
@@ -1153,9 +1249,11 @@ func hasDuplicates(n *jnode) bool {
 }
 
 type strictDesc struct {
-	MT, Digest string
-	Size       int64
-	Ann        map[string]string
+	MT, Digest  string
+	Size        int64
+	SizeText    string // the decimal text of the size member as signed
+	Ann         map[string]string
+	NullForZero bool // a member is JSON null where the caller requested the zero value of its type (0, "")
 }
 
 var knownUnrequested = map[string]bool{"urls": true, "data": true, "platform": true, "artifactType": true}
@@ -1163,7 +1261,13 @@ var knownUnrequested = map[string]bool{"urls": true, "data": true, "platform": t
 // strictDescriptor decodes a Notary payload with exact key spelling. It returns
 // ambiguous=true when any object has a duplicate member (then nothing else is said),
 // or a stable reason why the payload is not a clean Notary payload.
-func strictDescriptor(payload []byte) (d strictDesc, ambiguous bool, reason string) {
+//
+// JSON null: the decoder already reads an absent member as the zero value and
+// "annotations": null as no annotations. It reads "size": null and a null annotation
+// value the same way exactly where the CALLER requested that zero value (size 0, value
+// ""), and notes it in NullForZero (recorded, not judged: decoded, the signed descriptor
+// equals the requested one). Everywhere else null is "not a number" / "not a string".
+func strictDescriptor(payload []byte, w *want) (d strictDesc, ambiguous bool, reason string) {
 	n, err := parseJSON(payload)
 	if err != nil {
 		return d, false, "payload-not-json"
@@ -1202,9 +1306,14 @@ func strictDescriptor(payload []byte) (d strictDesc, ambiguous bool, reason stri
 			}
 			d.Digest = v.str
 		case "size":
+			if v.kind == '0' && w != nil && w.Size == 0 {
+				d.NullForZero = true
+				continue
+			}
 			if v.kind != 'n' {
 				return d, false, "size-not-a-number"
 			}
+			d.SizeText = v.num
 			x, err := strconv.ParseInt(v.num, 10, 64)
 			if err != nil {
 				return d, false, "size-not-an-integer"
@@ -1219,6 +1328,11 @@ func strictDescriptor(payload []byte) (d strictDesc, ambiguous bool, reason stri
 			}
 			d.Ann = map[string]string{}
 			for j, ak := range v.keys {
+				if v.vals[j].kind == '0' && w != nil && requestedEmpty(w.Ann, ak) {
+					d.NullForZero = true
+					d.Ann[ak] = ""
+					continue
+				}
 				if v.vals[j].kind != 's' {
 					return d, false, "annotation-value-not-a-string"
 				}
@@ -1231,6 +1345,25 @@ func strictDescriptor(payload []byte) (d strictDesc, ambiguous bool, reason stri
 		}
 	}
 	return d, false, ""
+}
+
+func requestedEmpty(ann [][2]string, key string) bool {
+	for _, e := range ann {
+		if e[0] == key {
+			return e[1] == ""
+		}
+	}
+	return false
+}
+
+// float64Text is what a JSON number holding x becomes when it is decoded into a float64
+// and encoded again by encoding/json (exact below 2^53).
+func float64Text(x int64) string {
+	b, err := json.Marshal(float64(x))
+	if err != nil {
+		panic(err)
+	}
+	return string(b)
 }
 
 // ---------------------------------------------------------------- cases
@@ -1331,19 +1464,22 @@ func annMap(a [][2]string) map[string]string {
 // whole descriptor; for notation.SignBlob the caller states the blob, its media type
 // and the user metadata - which digest algorithm the library picks is its own business.
 func wanted(c caseT, genAlg digest.Algorithm) want {
+	d := descOf(c.Desc)
 	var w want
-	if c.Desc == "annotated" {
-		w.Ann = reqAnnotations
-	}
+	w.Ann = d.Ann
 	if c.Entry == "Sign" {
-		w.MT, w.Size = mtManifest, 100
-		w.Digest = string(digest.SHA256.FromBytes(artifactContent))
+		req := requested(d, "Sign", d.SignAlg)
+		w.MT, w.Size, w.Digest = req.MediaType, req.Size, string(req.Digest)
 		return w
 	}
 	w.MT, w.Size = mtBlob, int64(len(blobContent))
-	if c.Entry == "SignBlobDirect" && genAlg != "" {
-		w.Digest = string(genAlg.FromBytes(blobContent)) // the caller's generator stated the descriptor itself
-		return w
+	if c.Entry == "SignBlobDirect" {
+		req := requested(d, c.Entry, digest.SHA256)
+		w.MT, w.Size = req.MediaType, req.Size
+		if genAlg != "" {
+			w.Digest = string(genAlg.FromBytes(blobContent)) // the caller's generator stated the descriptor itself
+			return w
+		}
 	}
 	w.Content = blobContent
 	return w
@@ -1353,7 +1489,7 @@ func wanted(c caseT, genAlg digest.Algorithm) want {
 // bytes alone: requested format, verifies under its own leaf certificate, Notary
 // payload type, signed descriptor = requested descriptor with every annotation and no
 // unknown member.
-func judgeEnvelope(c caseT, w want, sig []byte) (ref *refsig.Result, reasons []string, ambiguous bool) {
+func judgeEnvelope(c caseT, w want, sig []byte) (ref *refsig.Result, reasons, recorded []string, ambiguous bool) {
 	add := func(s string) { reasons = append(reasons, s) }
 	if len(sig) == 0 {
 		add("returned-empty-signature")
@@ -1366,18 +1502,30 @@ func judgeEnvelope(c caseT, w want, sig []byte) (ref *refsig.Result, reasons []s
 		} else {
 			add("returned-signature-that-does-not-verify")
 		}
-		return nil, reasons, false
+		return nil, reasons, nil, false
 	}
 	if ref.ContentType != forge.PayloadType {
 		add("returned-wrong-payload-type")
 	}
-	d, amb, why := strictDescriptor(ref.Payload)
+	d, amb, why := strictDescriptor(ref.Payload, &w)
 	if amb {
-		return ref, reasons, true
+		return ref, reasons, nil, true
+	}
+	// one more name for one class of "another size": the signed number is the requested size after a trip through
+	// float64 (what a signer does that re-encodes the payload through a generic JSON value); exact below 2^53
+	viaFloat := ""
+	if d.SizeText != "" && d.SizeText != strconv.FormatInt(w.Size, 10) && d.SizeText == float64Text(w.Size) {
+		viaFloat = ":float64-rendering-of-the-requested-size"
 	}
 	if why != "" {
-		add("returned-payload-not-strict:" + why)
+		if why != "size-not-an-integer" {
+			viaFloat = ""
+		}
+		add("returned-payload-not-strict:" + why + viaFloat)
 		return
+	}
+	if d.NullForZero {
+		recorded = append(recorded, "signed-null-where-the-zero-value-was-requested")
 	}
 	okDigest := false
 	if w.Content == nil {
@@ -1391,7 +1539,7 @@ func judgeEnvelope(c caseT, w want, sig []byte) (ref *refsig.Result, reasons []s
 		add("returned-signature-over-other-digest")
 	}
 	if d.Size != w.Size {
-		add("returned-signature-over-other-size")
+		add("returned-signature-over-other-size" + viaFloat)
 	}
 	if d.MT != w.MT {
 		add("returned-signature-over-other-media-type")
@@ -1455,8 +1603,9 @@ func judge(c caseT, p *plug, w want, genAlg digest.Algorithm, sig []byte, info *
 			rec("returned-signature-without-asking-the-plugin")
 		}
 	}
-	ref, why, amb := judgeEnvelope(c, w, sig)
+	ref, why, alsoRecorded, amb := judgeEnvelope(c, w, sig)
 	reasons = append(reasons, why...)
+	recorded = append(recorded, alsoRecorded...)
 	if ref == nil {
 		return reasons, recorded, amb
 	}
@@ -1549,7 +1698,7 @@ func runHistory(h histT, worlds map[string]*world, answers map[string]*answer) (
 		if k.i < len(h.Calls)-1 && !bytes.Equal(k.sig, k.cpy) {
 			hr.recorded = append(hr.recorded, h.Family+"/returned-signature-changed-by-a-later-call")
 			if hr.calls[k.i].class == "returned" {
-				_, reasons, _ := judgeEnvelope(h.call(k.i), hr.calls[k.i].want, k.sig)
+				_, reasons, _, _ := judgeEnvelope(h.call(k.i), hr.calls[k.i].want, k.sig)
 				for _, why := range reasons {
 					hr.viols = append(hr.viols, viol{h.Family + "/" + why,
 						fmt.Sprintf("the signature returned by call %d of history %v was changed by the later calls and now: %s", k.i+1, h, why)})
@@ -1572,10 +1721,12 @@ func runCall(c caseT, a *answer, p *plug, ps *signer.PluginSigner, idx, n int) (
 	if n > 1 {
 		where = fmt.Sprintf("call %d of %d on one PluginSigner: ", idx+1, n)
 	}
-	var ann map[string]string
-	if c.Desc == "annotated" {
-		ann = annMap(reqAnnotations)
+	rd := descOf(c.Desc)
+	if rd == nil || !entryApplies(rd, c.Entry) {
+		res.infra = fmt.Sprintf("unknown request descriptor, or one that entry point %s cannot state, in case %v", c.Entry, c)
+		return
 	}
+	ann := annMap(rd.Ann)
 	var sig []byte
 	var info *signature.SignerInfo
 	var serr error
@@ -1591,8 +1742,7 @@ func runCall(c caseT, a *answer, p *plug, ps *signer.PluginSigner, idx, n int) (
 		opts := notation.SignerSignOptions{SignatureMediaType: c.Format}
 		switch c.Entry {
 		case "Sign":
-			desc := ocispec.Descriptor{MediaType: mtManifest, Digest: digest.SHA256.FromBytes(artifactContent), Size: 100, Annotations: ann}
-			sig, info, serr = ps.Sign(ctx, desc, opts)
+			sig, info, serr = ps.Sign(ctx, requested(rd, "Sign", rd.SignAlg), opts)
 		case "SignBlob":
 			sig, info, serr = notation.SignBlob(ctx, ps, bytes.NewReader(blobContent), notation.SignBlobOptions{SignerSignOptions: opts, ContentMediaType: mtBlob, UserMetadata: ann})
 		case "SignBlobDirect":
@@ -1601,7 +1751,7 @@ func runCall(c caseT, a *answer, p *plug, ps *signer.PluginSigner, idx, n int) (
 					return ocispec.Descriptor{}, fmt.Errorf("digest algorithm %q is not available", alg)
 				}
 				genAlg = alg
-				return ocispec.Descriptor{MediaType: mtBlob, Digest: alg.FromBytes(blobContent), Size: int64(len(blobContent)), Annotations: ann}, nil
+				return requested(rd, "SignBlobDirect", alg), nil
 			}
 			sig, info, serr = ps.SignBlob(ctx, gen, opts)
 		}
@@ -1612,6 +1762,10 @@ func runCall(c caseT, a *answer, p *plug, ps *signer.PluginSigner, idx, n int) (
 		return
 	}
 	res.nontrivial = p.delivered
+	if a.Kind == kControl && p.toolAltered {
+		res.kind = kAdv
+		res.recorded = append(res.recorded, c.Family+"/control-signer-altered-the-payload")
+	}
 	if panicked != nil {
 		res.errText = firstLine(fmt.Sprint(panicked), 160)
 		if a.Kind == kBreach {
@@ -1669,15 +1823,13 @@ func firstFrames(stack string) string {
 }
 
 func applicable(a *answer, desc string) bool {
-	if a.NeedsAnn && desc != "annotated" {
-		return false
-	}
-	return true
+	d := descOf(desc)
+	return d != nil && (!a.NeedsAnn || len(d.Ann) >= 2)
 }
 
 func main() {
 	r := hx.New("C18")
-	r.Rule = "every element of (plugin path x key spec x envelope format x request descriptor x entry point x scripted plugin answer) is run once through the real PluginSigner on a fresh signer, and again inside every two-call history on ONE PluginSigner/plugin object (same answer twice; honest call first; honest call last; same answer through two entry points), every call judged like a call on a fresh signer; non-trivial = distinct cases in which the deviating answer was really delivered to the library (the scripted method carrying it was invoked) or a signature was returned (the oracle is evaluated there)"
+	r.Rule = "every element of (plugin path x key spec x envelope format x request descriptor x entry point x scripted plugin answer) is run once through the real PluginSigner on a fresh signer, and again inside every two-call history on ONE PluginSigner/plugin object (same answer twice; honest call first; honest call last; same answer through two entry points), every call judged like a call on a fresh signer; the request descriptor dimension holds the two everyday descriptors (plain, annotated: all three entry points) and VALUE descriptors in which one requested attribute takes a boundary value (sizes 0, 2^31, 2^32+100, 2^53-1, 2^53, 2^53+4, 2^60, 2^63-1; an empty annotation value; annotation keys named like descriptor members; a sha512 digest; an unregistered mixed-case media type with a parameter), run as single calls through the entry points where the caller states the whole descriptor, against every envelope-generator answer - among them signed sizes at distance -1, +1, +100, +2^32 and +0.5 of the requested size - so that a signed descriptor that differs from the requested one is met wherever an inexact representation (32-bit, float64) would make them compare equal; non-trivial = distinct cases in which the deviating answer was really delivered to the library (the scripted method carrying it was invoked) or a signature was returned (the oracle is evaluated there)"
 	r.Assumptions = []string{
 		"RSA-PSS/ECDSA/SHA-2 are sound; the plugin holds real keys, forgery without a key is not attempted",
 		"oracle signature check is lib/refsig (standard library + cbor decoding only); the payload is decoded by a strict token-level decoder (exact key spelling, unknown members rejected except the known descriptor members urls/data/platform/artifactType, duplicates = ambiguous = not judged)",
@@ -1686,6 +1838,8 @@ func main() {
 		"for notation.SignBlob the caller states blob, media type and metadata: the signed digest must be the blob's digest under any available algorithm; Sign and SignBlob-with-generator state the digest exactly",
 		"only what the statement says is enforced; observations beyond it (echoed envelope type field, signerInfo contents, byte identity of the returned chain, algorithm/key-size binding, number and order of plugin calls, a value returned together with an error) are outcome classes 'recorded:<key>'",
 		"a key spec string other than the six names RSA-2048/3072/4096, EC-256/384/521 is undecodable (hand-labelled near-canonical spellings); the key description the library relies on is the most recent describe-key answer it obtained on that signer object, so remembering an answer that was checked is not a violation, relying on one that was rejected is",
+		"value descriptors (boundary sizes, unusual annotations / digest algorithm / media type) are requested through Sign and PluginSigner.SignBlob with a caller-supplied generator only: notation.SignBlob measures size and digest of the reader itself; they are not run inside two-call histories; on the raw-signature path they meet the honest and the recorded (tolerated) answers only, because there the library writes the payload itself and the oracle reads it from the returned envelope",
+		"the oracle compares the signed size with the requested size as int64 decoded from the decimal text of the JSON number (strconv.ParseInt): no float64 on the oracle side",
 		"histories have length 2; longer histories and concurrent calls on one signer are not explored",
 	}
 
@@ -1759,6 +1913,10 @@ func main() {
 			r.Infra("replay: unknown key spec %q", h.Spec)
 			r.Finish()
 		}
+		if descOf(h.Desc) == nil {
+			r.Infra("replay: unknown request descriptor %q", h.Desc)
+			r.Finish()
+		}
 		need(h.Spec)
 		report(runHistory(h, worlds, answers), true)
 		r.Finish()
@@ -1770,18 +1928,33 @@ func main() {
 		specs = []string{pki.RSA2048, pki.EC256, pki.EC384}
 	}
 	descs := []string{"plain", "annotated"}
+	var valueDescs []string
+	for _, d := range reqDescs {
+		if d.Value {
+			valueDescs = append(valueDescs, d.Name)
+		}
+	}
 	entries := []string{"Sign", "SignBlob", "SignBlobDirect"}
 	switches := [][2]string{{"Sign", "SignBlob"}, {"SignBlob", "Sign"}, {"Sign", "SignBlobDirect"}, {"SignBlobDirect", "SignBlob"}}
 	honest := map[string]string{famEnvelope: "honest-forge", famRaw: "honest"}
 	var singles, histories []histT
 	// singles: one call on a fresh signer
 	addSingles := func(spec, format, desc, entry string) {
+		rd := descOf(desc)
+		if !entryApplies(rd, entry) {
+			return
+		}
 		for _, fam := range []string{famEnvelope, famRaw} {
 			list := envA
 			if fam == famRaw {
 				list = rawA
 			}
 			for i := range list {
+				// value descriptors meet every envelope-generator answer; on the raw-signature path the library writes
+				// the payload itself, so they meet the answers that end in a returned signature (the oracle reads it)
+				if rd.Value && fam == famRaw && list[i].Kind != kControl && list[i].Kind != kRecorded {
+					continue
+				}
 				if applicable(&list[i], desc) {
 					singles = append(singles, histT{Family: fam, Spec: spec, Format: format, Desc: desc, Shape: "single", Calls: []step{{entry, list[i].Name}}})
 				}
@@ -1825,6 +1998,15 @@ func main() {
 				}
 				if r.Thorough() {
 					addHistories(s, f, d, entries, switches)
+				}
+			}
+			// value descriptors: every key spec in thorough, EC-256 (cheapest key) in quick - what is compared
+			// with the request does not depend on the key
+			if r.Thorough() || s == pki.EC256 {
+				for _, d := range valueDescs {
+					for _, e := range entries {
+						addSingles(s, f, d, e)
+					}
 				}
 			}
 		}
@@ -1893,10 +2075,14 @@ func main() {
 		}
 		ranSingles++
 		res := hr.calls[0]
-		if res.kind == kControl {
+		if res.kind == kControl && descOf(res.c.Desc).Value && res.class != "returned" {
+			// the statement is an implication: refusing to sign an unusual request through an honest plugin is
+			// not a violation, and the everyday descriptors are the positive controls
+			r.Outcome("recorded:" + res.c.Family + "/honest-answer-not-accepted-for-a-value-descriptor")
+		} else if res.kind == kControl {
 			controls++
-			if res.class == "returned" && len(res.viols) == 0 {
-				controlsOK++
+			if res.class == "returned" {
+				controlsOK++ // the control is "an honest answer yields a signature"; what is wrong with a returned signature is a violation, reported above
 			} else if len(failedControls) < 5 {
 				failedControls = append(failedControls, fmt.Sprintf("%v: %s %s", res.c, res.class, res.errText))
 			}
@@ -1923,6 +2109,14 @@ func main() {
 	r.Extra["key_specs"] = specs
 	r.Extra["formats"] = len(forge.Formats)
 	r.Extra["descriptors"] = descs
+	var vd []string
+	for _, d := range reqDescs {
+		if d.Value {
+			vd = append(vd, fmt.Sprintf("%s (%s)", d.Name, d.Note))
+		}
+	}
+	r.Extra["value_descriptors"] = vd
+	r.Extra["value_descriptors_bound"] = "single calls through Sign and PluginSigner.SignBlob(generator) (the entry points where the caller states size, digest and media type), both formats, every envelope-generator answer and the raw-signature answers that end in a returned signature; key specs: EC-256 in quick, all six in thorough"
 	r.Extra["entry_points"] = entries
 	r.Extra["envelope_generator_answers"] = len(envA)
 	r.Extra["signature_generator_answers"] = len(rawA)
@@ -1932,7 +2126,7 @@ func main() {
 	r.Extra["positive_controls"] = controls
 	r.Extra["positive_controls_accepted"] = controlsOK
 	if !r.Thorough() {
-		r.Extra["quick_bound"] = "RSA-2048, EC-256, EC-384 full product plus an RSA-4096 diagonal (JWS/plain/SignBlob, COSE/annotated/Sign, JWS/annotated/SignBlobDirect); two-call histories: all shapes on EC-256 x both formats x annotated descriptor, one entry point + one entry switch on RSA-2048/JWS, EC-384/COSE, RSA-4096/COSE"
+		r.Extra["quick_bound"] = "RSA-2048, EC-256, EC-384 full product over the everyday descriptors plus an RSA-4096 diagonal (JWS/plain/SignBlob, COSE/annotated/Sign, JWS/annotated/SignBlobDirect); two-call histories: all shapes on EC-256 x both formats x annotated descriptor, one entry point + one entry switch on RSA-2048/JWS, EC-384/COSE, RSA-4096/COSE; value descriptors: EC-256 x both formats x Sign and SignBlobDirect, single calls"
 	}
 	if controls == 0 || controlsOK == 0 {
 		r.Infra("vacuous run: %d of %d positive controls (honest plugin answers) returned a signature", controlsOK, controls)
